@@ -2,7 +2,11 @@
    through the bit-exact port of Go's math package) against the observed results of
    Polygon.Vertices(), Nagon() and Bezier.Polygon().Vertices(). *)
 From Coq Require Import List ZArith NArith Floats Bool.
-From Sdfx Require Import Num.Ops Num.FInst Geo.Vec Sdf.Build Sdf.Bezier.
+From Sdfx Require Import Num.Ops.
+From Sdfx Require Import Num.FInst.
+From Sdfx Require Import Geo.Vec.
+From Sdfx Require Import Sdf.Build.
+From Sdfx Require Import Sdf.Bezier.
 Import ListNotations.
 
 Definition fpt := (float * float)%type.
